@@ -56,6 +56,7 @@ NON_NFC = ['e\u0301', 'u\u0308', 'A\u030a', 'n\u0303', '\u0958', '\u0959', '\u09
 # combining mark after an arbitrary letter is avoided on purpose: the library's bundled utf8proc
 # mis-composes 75 of the 7056 pairs <ASCII letter or digit, U+0300..U+036F>, finding FB2-2, which is
 # replayed separately below.)
+VARIANT = 0          # 1: the tree carries the repair of finding FB2-1 (detected at run time)
 RAW_OF = {}         # stored (NFC) name -> the raw bytes handed to the API
 
 
@@ -431,7 +432,7 @@ def gen_scenario(rng, lean, path, kind, feats):
         feats.add('reopen-redef')
         body = bytearray(m.snapshot_expect()['end'])
         body[:m.xsz] = m.header
-        a = lean.ask('OPENINFO ' + hx(bytes(body[:m.xsz])))
+        a = lean.ask('OPENINFO %d ' % VARIANT + hx(bytes(body[:m.xsz])))
         t = a.split()
         if t[0] != 'OK':
             return None, 'model cannot reopen its own file: ' + a
@@ -613,6 +614,21 @@ def run_check(tier, seed):
             return V.finish()
         api = cc(tree, [os.path.join(VERIF, 'harness/c03_api.c')], os.path.join(wd, 'c03_api'))
         lean = LeanProc(drv)
+        # which variant does the tree follow?  (finding FB2-1: header extent after reopening a file without
+        # variables; Props.C03.reportedExtent_counterexample / reportedExtent_fixed cover both)
+        vpath = os.path.join(wd, 'variant.nc')
+        vs_ = os.path.join(wd, 'variant.txt')
+        open(vs_, 'w').write('\n'.join(['create %s 1 0 0 0 0' % vpath, 'defdim 78 3', 'enddef', 'close', 'open %s 0 0 0 0' % vpath, 'inq', 'close']) + '\n')
+        rc_, so_, se_ = mpirun(1, [api, vs_, os.path.join(wd, 'variant.out')], timeout=120)
+        try:
+            a_ = open(os.path.join(wd, 'variant.out.0')).read().split('\n')[5].split()
+            fixed_variant = int(a_[3]) >= int(a_[2])
+        except Exception:
+            V.broken_tie('harness c03_api failed on the variant probe', (so_ + se_)[-600:])
+            return V.finish()
+        V.cov['tree_variant'] = 'FB2-1 repaired' if fixed_variant else 'FB2-1 present'
+        global VARIANT
+        VARIANT = 1 if fixed_variant else 0
         nsc = 400 if tier == 'quick' else 6000
         scen = []
         feats_all = {}
